@@ -1,5 +1,5 @@
 """C14 / C15 / C19 — protected memory (DESIGN.md §7 C14, C15, C19).  One module, three entry points."""
-import random, os
+import random, os, re
 from common import *
 import protfam
 
@@ -36,6 +36,16 @@ def run_prot(prop, tier, seed, fail=False):
             if rc != 0:
                 raise BuildError("cannot build the mlock shim: " + out)
         env["LD_PRELOAD"] = shim
+    if prop == "C15":
+        # an observation of released memory that does not depend on dryoc's own hook: every page-aligned block of ≥ 3 pages is
+        # scanned over its whole usable size at the moment it is passed to free()
+        fsrc = os.path.join(VERIF, "interpose", "free_scan.c")
+        fshim = os.path.join(WORK, "free_scan.so")
+        if not os.path.exists(fshim) or os.path.getmtime(fshim) < os.path.getmtime(fsrc):
+            rc, out = sh(["clang", "-shared", "-fPIC", "-O1", "-o", fshim, fsrc, "-ldl"])
+            if rc != 0:
+                raise BuildError("cannot build the free-scan shim: " + out)
+        env["LD_PRELOAD"] = (env.get("LD_PRELOAD", "") + " " + fshim).strip()
     cases = corpus_cases(prop)
     for kind in ("bytes", "arr"):
         seqs = protfam.sequences(rng, tier, kind)
@@ -75,10 +85,23 @@ def run_prot(prop, tier, seed, fail=False):
             for toks in (["new", "fill:00", "resize:%d" % (n + 100), "fillfrom:%d:5a" % n, "resize:%d" % (4 * n), "drop"],
                          ["new", "fill:00", "lock", "unlock", "resize:%d" % (n + 100), "fillfrom:%d:5a" % n, "resize:%d" % (4 * n), "drop"]):
                 cases.append(Case("prot bytes %d %s" % (n, " ".join(toks)), cls="bytes/zero-page-prefix"))
+    if fail:
+        # a refused RE-lock of a region that is unlocked and read-only / no-access / read-write (the k-th lock request of the history)
+        for kind in ("bytes", "arr"):
+            for n in (1, 32, 4096, 4097):
+                if kind == "arr" and n not in protfam.ARR_LENS:
+                    continue
+                for mode in ("ro", "na", "rw"):
+                    for tail in (["drop"], ["rw", "drop"], ["unlock", "drop"]):
+                        for k in (2, 1002, 11002):
+                            toks = ["failfrom:%d" % k, "new", "fill:a5", "lock", "unlock", mode, "lock"] + tail
+                            cases.append(Case("prot %s %d %s" % (kind, n, " ".join(toks)), cls="%s/relock-%s" % (kind, mode)))
+                        toks = ["failfrom:2", "new", "fill:a5", "lock", "ro", "unlock", "lock", "clone", "drop", "drop@1"]
+                        cases.append(Case("prot %s %d %s" % (kind, n, " ".join(toks)), cls="%s/relock-ro2" % kind))
     if fail or prop != "C14":
         # Result-returning constructors under refusal / plain
         for n in protfam.LENS:
-            for ctor in ("fsl:%d" % n, "fsro:%d" % n, "newlocked", "genlocked", "newrolocked", "genrolocked", "serde:json:%d" % n, "serde:bincode:%d" % n):
+            for ctor in ("fsl:%d" % n, "fsro:%d" % n, "newlocked", "genlocked", "newrolocked", "genrolocked", "serde:json:%d" % n, "serde:bincode:%d" % n, "stacklock"):
                 for k in ([1, 2, 3, 1001, 11001, 22002] if fail else [0]):
                     pre = ["failfrom:%d" % k] if k else []
                     for kind in ("bytes", "arr") if n in protfam.ARR_LENS else ("bytes",):
@@ -92,7 +115,7 @@ def run_prot(prop, tier, seed, fail=False):
         res.count(c.cls)
         i = impl.get(c.id, ["missing"])[0]
         m = model.get(c.id, ["n/a"])[0]
-        if "fillfrom:" in c.line or " serde:" in c.line:      # suffix fills / serde decoding are not operations of the Lean model: judged by the predicate alone
+        if "fillfrom:" in c.line or " serde:" in c.line or " stacklock" in c.line:      # suffix fills / serde decoding are not operations of the Lean model: judged by the predicate alone
             m = "n/a"
         if m == "bad-op":
             m = "n/a"; res.extra["model_unsupported"] = res.extra.get("model_unsupported", 0) + 1
@@ -105,6 +128,24 @@ def run_prot(prop, tier, seed, fail=False):
         if i in ("missing", "panic") or i.startswith("abort"):
             res.violations.append({"kind": "impl-" + i.split("(")[0], "line": c.line, "answers": answers, "why": "the runner process died or panicked outside a token (SIGSEGV/abort in the implementation)"})
             continue
+        # the free()-scan column is judged on its own and removed before the answer is compared with the model
+        frs = re.findall(r" fr=([^;\s]+)", i)
+        i = re.sub(r" fr=[^;\s]+", "", i)
+        answers["impl"] = i[:3000]
+        leak = None
+        for fr in frs:
+            if fr == "-":
+                continue
+            for ev in fr.split("+"):
+                sz, nz, ur = ev.split(":")
+                res.extra["free_scan_blocks"] = res.extra.get("free_scan_blocks", 0) + 1
+                if int(nz) != 0:
+                    leak = "a block of %s bytes reached free() with %s non-zero bytes still in it (scan of the whole block at the system allocator boundary)" % (sz, nz)
+        if prop == "C15" and not frs:
+            leak = "the free()-scanning shim is not active"
+        if leak:
+            res.violations.append({"kind": "predicate", "line": c.line, "answers": answers, "why": leak})
+            continue
         why = protfam.prot_predicate(c.line, fail_injected=fail)(i)
         if why:
             res.violations.append({"kind": "predicate", "line": c.line, "answers": answers, "why": why})
@@ -116,7 +157,7 @@ def run_prot(prop, tier, seed, fail=False):
         if not okc:
             lean["failed"].append("leanchecker: " + out[-300:])
     return conclude(res, lean, trusted=TRUSTED,
-                    rule="all operation sequences up to a bounded depth over the type-state graph (lock/unlock/ro/rw/na/clone/resize/drop) plus random deeper ones, for lengths 0,1,16,32,64,P−1,P,P+1,2P,2P+1, resizable and fixed-length containers; after every operation: /proc/self/maps rights of the page before, every data page and the pages after, VmLck delta, contents checksum, forked write/read/guard fault probes, allocator release events (size, non-zero bytes)" + ("; each sequence re-run with the k-th and all later mlock requests refused by an LD_PRELOAD shim" if fail else "") + "; distinct by implementation transcript",
+                    rule="all operation sequences up to a bounded depth over the type-state graph (lock/unlock/ro/rw/na/clone/resize/drop) plus random deeper ones, for lengths 0,1,16,32,64,P−1,P,P+1,2P,2P+1, resizable and fixed-length containers; after every operation: /proc/self/maps rights of the page before, every data page and the pages after, VmLck delta, contents checksum, forked write/read/guard fault probes, allocator release events (size, non-zero bytes)" + ("; every block handed out by posix_memalign is zero-filled and is scanned over its whole usable size when it reaches free() (LD_PRELOAD shim interpose/free_scan.c), independently of the library's own release hook" if prop == "C15" else "") + ("; each sequence re-run with the k-th and all later mlock requests refused by an LD_PRELOAD shim" if fail else "") + "; distinct by implementation transcript",
                     assumptions=["Linux mprotect/mlock semantics as modelled"])
 
 
